@@ -160,6 +160,16 @@ class Ctx:
         return sum(1 for o in self.obs if o["rule"] == rule)
 
 
+_KNOWN = None
+
+
+def _known_keys():
+    global _KNOWN
+    if _KNOWN is None:
+        _KNOWN = {k["key"] for k in load_known() if k.get("status") == "known"}
+    return _KNOWN
+
+
 class AliasCtx:
     """runs another property's rules under this property: obligations of the rules listed in `mapping` are recorded under the
     mapped rule id (key prefixed with the source rule), everything else is dropped."""
@@ -175,6 +185,8 @@ class AliasCtx:
 
     def ob(self, rule, key, ok, why, **kw):
         if rule in self.mapping:
+            if not ok and "%s|%s" % (rule, key) in _known_keys():
+                return None      # a recorded known finding is reported (once) by the check of its own property
             return self.ctx.ob(self.mapping[rule], "%s/%s" % (rule, key), ok, why, **kw)
 
     def touch(self, f):
